@@ -633,3 +633,60 @@ def random_seed_applied(ni: int, with_other: bool, seeded: bool) -> bool:
     post: _
     """
     return done(fast.native(_seed_applied, fast.pick(ni, len(SEEDS)), bool(fast.pick(with_other, 2)), bool(fast.pick(seeded, 2))))
+
+
+# ------------------------------------------------------------------ alias reuse in JOIN ... ON
+JOIN_SHAPES = [
+    # (sql, for each join in order: the expression its ON must start with, or None when the join has no ON / must stay as written)
+    ("select c.id as cid, o.amount from customers c join orders o on cid = o.customer_id", ["C.ID"]),
+    ("select c.id as cid, o.amount, r.rate from customers c cross join rates r join orders o on cid = o.customer_id", [None, "C.ID"]),
+    ("select c.id as cid, o.amount from customers c, rates r join orders o on cid = o.customer_id", [None, "C.ID"]),
+    ("select c.id as cid, o.amount from customers c join orders o on cid = o.customer_id join rates r on r.k = o.k", ["C.ID", "R.K"]),
+    ("select c.id as cid, x.id as xid from customers c join orders o on o.customer_id = c.id join extras x on xid = o.extra_id", ["O.CUSTOMER_ID", "X.ID"]),
+    ("select upper(c.name) as uname, o.amount from customers c left join orders o on uname = o.cname", ["UPPER(C.NAME)"]),
+    ("select c.id, o.amount from customers c join orders o on c.id = o.customer_id", ["C.ID"]),
+    ("with q as (select c.id as cid, o.amount from customers c cross join rates r join orders o on cid = o.customer_id) select * from q", [None, "C.ID"]),
+]
+
+
+def _alias_in_join(si: int) -> bool:
+    from obligations.C11 import emitted
+
+    sql, wants = JOIN_SHAPES[si]
+    tree = emitted(sql)
+    sel = tree.find(exp.Select) if not isinstance(tree, exp.Select) or tree.args.get("with") else tree
+    inner = [s for s in tree.find_all(exp.Select) if s.args.get("joins")]
+    if not inner:
+        return False
+    joins = inner[-1].args["joins"] if tree.args.get("with") else inner[0].args["joins"]
+    ons = [j.args.get("on") for j in joins]
+    if len(ons) != len(wants):
+        return False
+    for on, want in zip(ons, wants):
+        if want is None:
+            if on is not None:
+                return False
+            continue
+        if on is None:
+            return False
+        left = on.this.sql(dialect="duckdb").upper().replace(" ", "")
+        if left != want.replace(" ", ""):
+            return False
+    del sel
+    return True
+
+
+@ob(
+    "C10.alias_reuse_in_join_on",
+    encodes=["fakesnow.transforms.alias_in_join", "fakesnow.cursor.FakeSnowflakeCursor._transform"],
+    bounds="8 SELECT shapes with 1-2 joins (an alias of the select list used as the left side of an ON; joins without ON - CROSS JOIN, comma join - before "
+    "or after it; alias of an expression; no alias; inside a CTE): the ON that reaches the engine starts with the aliased expression exactly where an "
+    "alias was used, and other joins are untouched",
+    timeout=(200, 400),
+)
+def alias_in_join(si: int) -> bool:
+    """
+    pre: 0 <= si < len(JOIN_SHAPES)
+    post: _
+    """
+    return done(fast.native(_alias_in_join, fast.pick(si, len(JOIN_SHAPES))))
